@@ -2124,6 +2124,7 @@ GENERATORS = {
     "GenCsv.v": lambda src: translate_file(src / "csv.py", fresh(CSV_KERNELS), "GenCsv", IMPORTS_CSV),
     "GenReduce.v": lambda src: __import__("harness.translate_reduce", fromlist=["translate_reduce"]).translate_reduce(src),
     "GenPartition.v": lambda src: __import__("harness.translate_partition", fromlist=["translate_partition"]).translate_partition(src),
+    "GenJoinIndex.v": lambda src: __import__("harness.translate_partition", fromlist=["translate_join_index"]).translate_join_index(src),
 }
 
 
@@ -2182,8 +2183,9 @@ SCRIPTS = [            # (committed proof script, generated modules it needs)
     ("EqAggNames.v", ["GenAggNames.v"]),
     ("EqReduce.v", ["GenReduce.v"]),
     ("EqPartition.v", ["GenPartition.v"]),
+    ("EqJoinIndex.v", ["GenJoinIndex.v"]),
 ]
-NEEDED_VO = ["Base/GenPrelude", "Props/C04", "Props/C07", "Props/C18", "Props/C11", "Props/C16", "Props/C05", "Props/C19", "Props/C14", "Props/C06", "Props/C12"]
+NEEDED_VO = ["Base/GenPrelude", "Props/C04", "Props/C07", "Props/C18", "Props/C11", "Props/C16", "Props/C05", "Props/C19", "Props/C14", "Props/C06", "Props/C12", "Props/C09"]
 BUDGET = float(__import__("os").environ.get("SERIF_TRANSLATE_BUDGET", "28"))   # seconds for one run()
 
 HARD_TIMEOUT = 120.0   # seconds for one coqc that MUST run (generated file, first pass over a proof script)
